@@ -63,7 +63,15 @@ def _worker_run(item):
     try:
         recs = _PROP.run_case(case)
         return idx, recs, None
-    except CaseTimeout:
+    except CaseTimeout as e:
+        # where was the case when the alarm fired?  Inside the code under test: a hang of the real code,
+        # reported as a rejected record.  Inside the harness: machinery failure.
+        tb = [f for f in traceback.extract_tb(e.__traceback__) if not f.filename.endswith('framework.py')]
+        root = os.path.join(os.path.realpath(REPO), '')
+        if tb and os.path.realpath(tb[-1].filename).startswith(root):
+            return idx, [dict(shape_ok=False, crashed=True, crash='no result after %ss (hang)' % limit,
+                              where='%s:%d' % (os.path.relpath(tb[-1].filename, root), tb[-1].lineno),
+                              case=json.dumps(case)[:400])], None
         return idx, None, 'driver timeout after %ss' % limit
     except BaseException as e:
         # An exception that escapes from the code under test (its innermost frame lies in the
